@@ -5,6 +5,11 @@ IDS = ["C%02d" % i for i in range(1, 21)]
 
 # id -> (engine, category, technique, text, note, design_ref)
 CHECKS = {
+ "C09": ("E3-crash-enumeration", "fault_enumeration",
+   "exhaustive kill-point enumeration (SIGKILL before the k-th file-system or pipe-write libc call, every k) of the real `copia sync -r` in all three directions; orphaned remote commands reaped by a subreaper; re-run to completion",
+   "Scenarios = direction {local, pull, push over the ssh stand-in} x destination state {absent, different size, same size + different mtime, mixed} x flags {none, --delete with stale files, --exclude} (quick: 4 scenarios; thorough: all 36), files of 0 B, 1 B, 300 KiB and 700 000 B (several transfer chunks / pipe writes), --jobs 1 with one runtime worker so the log is deterministic. For EVERY k until a run completes unkilled: kill before call k, wait for all orphaned children (the remote `cat ... && mv` runs to completion on EOF), then every non-staging destination path must hold exactly its pre-run bytes or exactly the source's bytes, paths outside the plan are untouched (bytes, mtime), the source is unchanged; then the same command must complete with exit 0 and yield the uninterrupted run's destination (bytes + whole-second mtimes).",
+   "ssh stand-in = bash -c with OpenSSH-style argument joining (remote shell assumed bash; no real network); process-kill crash model (no power loss) for the one-way engine; --jobs 1 only (completion orders are C04's).",
+   "DESIGN.md §2.3, §3 C09"),
  "C08": ("E3-crash-enumeration", "fault_enumeration",
    "exhaustive kill-point enumeration (SIGKILL before the k-th mutating libc call, every k) of the real `copia bisync` under an LD_PRELOAD injector, plus every subset of unsynced files torn; recovery runs",
    "Scenarios (quick: propagate, both-changed conflict, first run without archive; thorough: + create, propagate either way, delete either way, delete-vs-modify, several nested paths at once, 300 KiB file), each prepared by a real prior sync. The uninterrupted run is logged twice (determinism) giving N mutating calls; for EVERY k in 1..N+1 the process is killed before call k; at each k every subset (capped) of files written since their last fsync is additionally torn (empty / half). Each crash state: every non-staging path holds a complete pre-run or delivered version; the archive is the old one, absent, or the new one and then everything it records is on both sides with that hash. Trace-order invariant on the log: every staged file is fsynced after its last write and before its rename; the archive rename follows all data renames. Then up to 3 recovery runs must reach the uninterrupted run's trees without losing a version.",
